@@ -120,8 +120,14 @@ func init() {
 				// still gets every batch, one datagram per emit
 				hostPorts = []string{deadUDPAddr(), col.s.addr()}
 			}
-			rep, err := m3.NewReporter(m3.Options{HostPorts: hostPorts, Service: "s", Env: "e", CommonTags: common,
-				Protocol: proto, MaxQueueSize: 1 + rng.Intn(64), MaxPacketSizeBytes: int32(maxPacket)})
+			opts := m3.Options{HostPorts: hostPorts, Service: "s", Env: "e", CommonTags: common,
+				Protocol: proto, MaxQueueSize: 1 + rng.Intn(64), MaxPacketSizeBytes: int32(maxPacket)}
+			// rarely set options that add to what every packet or every bucket metric carries
+			opts.IncludeHost = ci%4 == 3
+			if ci%5 == 4 {
+				opts.HistogramBucketIDName, opts.HistogramBucketName = "histogram_bucket_id", "histogram_bucket_bounds"
+			}
+			rep, err := m3.NewReporter(opts)
 			if err != nil {
 				// the common tags alone exceed the packet: outside the property's proviso
 				col.close()
